@@ -22,6 +22,7 @@ DRIVER = 'drivers/c04_controls.py'
 _lock = threading.Lock()
 
 QUICK = [('Controls_q1.cfg', ('AddParam', 'Emit')),
+         ('Controls_q5.cfg', ('AddParam', 'Emit')),
          ('Controls_q2.cfg', ('AddParam', 'Emit')),
          ('Controls_q3.cfg', ('AddParam', 'AddBound', 'OpenWrap', 'Emit')),
          ('Controls_q4.cfg', ('AddParam', 'AddVariant', 'Emit'))]
@@ -30,16 +31,24 @@ THOROUGH = QUICK + [('Controls_t2.cfg', ('AddParam', 'Emit')),
                     ('Controls_t3.cfg', ('AddParam', 'Emit')),
                     ('Controls_t3b.cfg', ('AddParam', 'Emit')),
                     ('Controls_t3w.cfg', ('AddParam', 'AddBound', 'OpenWrap', 'Emit')),
-                    ('Controls_t4.cfg', ('AddParam', 'AddBound', 'OpenWrap', 'AddVariant', 'Emit'))]
+                    ('Controls_t4.cfg', ('AddParam', 'AddBound', 'OpenWrap', 'AddVariant', 'Emit')),
+                    ('Controls_t4b.cfg', ('AddParam', 'AddVariant', 'Emit')),
+                    ('Controls_t5.cfg', ('AddParam', 'Emit')),
+                    ('Controls_t5w.cfg', ('AddParam', 'AddBound', 'OpenWrap', 'AddVariant', 'Emit'))]
 
 
 def P(n, an='none', ov='absent', lag=(), dv=None, bound=None, spec=None):
     """a parameter of a hand-written request (values in real units, multiples of 1/8)"""
     if bound is not None:
-        return dict(n=n, bk='bound', bv=int(bound * 8), an='none', ov='absent', lag=[], dk='missing', dv=[], sk='none', sv=0)
-    dk = 'missing' if dv is None else 'tuple' if isinstance(dv, tuple) else 'scalar'
+        return dict(n=n, bk='bound', bv=int(bound * 8), an='none', ov='absent', lag=[], dk='missing', dv=[], dty=[],
+                    sk='none', sv=0)
+    dk = 'missing' if dv is None else 'None' if dv == 'None' else 'tuple' if isinstance(dv, tuple) else 'scalar'
+    if dv == 'None':    # an explicit =None
+        dv = None
     vals = [] if dv is None else [int(x * 8) for x in (dv if isinstance(dv, tuple) else (dv,))]
-    return dict(n=n, bk='ctl', bv=0, an=an, ov=ov, lag=[int(x * 8) for x in lag], dk=dk, dv=vals,
+    tys = [] if dv is None else ['b' if isinstance(x, bool) else 'i' if isinstance(x, int) else 'f'
+                                for x in (dv if isinstance(dv, tuple) else (dv,))]
+    return dict(n=n, bk='ctl', bv=0, an=an, ov=ov, lag=[int(x * 8) for x in lag], dk=dk, dv=vals, dty=tys,
                 sk='spec' if spec is not None else 'none', sv=int(spec * 8) if spec is not None else 0)
 
 
@@ -62,6 +71,10 @@ EXTRA = [
     dict(name='x', variants=[dict(n='low', set=[dict(n='freq', v=[880])])],
          funcs=[F(0, P('freq', ov='num', lag=(0.125,), dv=440), P('amp', ov='num', lag=(0.125,), dv=0.125),
                   P('pan', dv=0), P('gate', dv=1))]),
+    dict(name='x', variants=[dict(n='z', set=[dict(n='width', v=[0]), dict(n='detune', v=[8, 0])])],
+         funcs=[F(0, P('freq', dv=0, spec=440), P('cutoff', dv='None', spec=440), P('amp', 'ir', dv=0.0, spec=1),
+                  P('pan', dv=0, spec=-0.5), P('gate', 'tr', dv=False, spec=1), P('detune', dv=(0, 0.0), spec=0.5),
+                  P('width', dv=0.25, spec=0.5), P('on', dv=True, spec=0), P('neg', dv=-1.5, spec=1.5))]),
     dict(name='x', variants=[], funcs=[F(0, P('freq', dv=440), P('amp', dv=0.125)),
                                        F(1, P('pan', dv=0), P('gate', 'tr', dv=1)),
                                        F(1, P('buf', 'ir', dv=0)), F(3, P('rate', 'ar', dv=(1, 1)))]),
@@ -96,6 +109,8 @@ def calls_for(d):
     top = ctl_params(d['funcs'][0])
     rest = [p for f in d['funcs'][1:] for p in ctl_params(f)]
     calls = [dict(args=[value_for(p, i + 1) for i, p in enumerate(top)], kw=[])]
+    if top:     # a zero is an argument like any other
+        calls[0]['args'][0] = dict(calls[0]['args'][0], v=[0] * len(calls[0]['args'][0]['v']))
     h = len(top) // 2
     calls.append(dict(args=[value_for(p, i + 11) for i, p in enumerate(top[:h])],
                       kw=[dict(n=p['n'], v=value_for(p, i + 21)) for i, p in enumerate(top[h:] + rest)]))
@@ -137,7 +152,9 @@ def features(d, why=''):
             elif p['ov'] == 'list':
                 fs.add('laglist')
             if p['sk'] == 'spec':
-                fs.add('spec')
+                fs.add('spec' if p['dk'] in ('missing', 'None') else 'spec_and_default')
+            if p['dk'] in ('scalar', 'tuple') and any(x == 0 for x in p['dv']):
+                fs.add('zero_default')
     if d['variants']:
         fs.add('variants')
     return '+'.join(sorted(fs)) or 'plain'
